@@ -70,7 +70,28 @@ var extraGeoms = []geom{
 // slots is how many whole blocks fit; used only to size workloads, never by an oracle.
 func (g geom) slots() int { return (g.End - g.Start + 1) / g.Size }
 
-func pubIP(i int) net.IP  { return net.IPv4(203, 0, 113, byte(1+i)).To4() }
+func pubIP(i int) net.IP { return net.IPv4(203, 0, 113, byte(1+i)).To4() }
+
+// pubNames is the list of the first n default public addresses as strings (shared, read-only).
+func pubNames(n int) []string {
+	if n <= len(pubNameTab) {
+		return pubNameTab[:n]
+	}
+	t := make([]string, n)
+	for i := range t {
+		t[i] = pubIP(i).String()
+	}
+	return t
+}
+
+var pubNameTab = func() []string {
+	t := make([]string, 64)
+	for i := range t {
+		t[i] = pubIP(i).String()
+	}
+	return t
+}()
+
 func privIP(i int) net.IP { return net.IPv4(100, 64, byte(i/250), byte(i%250+1)).To4() }
 
 // ---------------------------------------------------------------- observed values
@@ -329,8 +350,8 @@ type probe struct {
 	port int
 }
 
-func probes(g geom, nPub int, blocks []blk, rnd func(int) int) []probe {
-	out := make([]probe, 0, 7*len(blocks)+3*nPub)
+func probes(g geom, pubs []string, blocks []blk, rnd func(int) int) []probe {
+	out := make([]probe, 0, 7*len(blocks)+3*len(pubs))
 	add := func(pub string, p int) {
 		if p >= 0 && p <= 65535 {
 			out = append(out, probe{pub, p})
@@ -341,8 +362,7 @@ func probes(g geom, nPub int, blocks []blk, rnd func(int) int) []probe {
 			add(b.Pub, p)
 		}
 	}
-	for i := 0; i < nPub; i++ {
-		pub := pubIP(i).String()
+	for _, pub := range pubs {
 		add(pub, g.Start)
 		add(pub, g.End)
 		add(pub, g.Start+rnd(g.End-g.Start+1))
@@ -352,7 +372,7 @@ func probes(g geom, nPub int, blocks []blk, rnd func(int) int) []probe {
 
 // compareAttribution checks that the log-only model names exactly the model's owners at the probe points.
 // Returns the number of probes judged and, on the first mismatch, a class and description.
-func compareAttribution(g geom, nPub int, he []lmEntry, lm *logModel, focus []blk, rnd func(int) int) (int, string, string) {
+func compareAttribution(g geom, pubs []string, he []lmEntry, lm *logModel, focus []blk, rnd func(int) int) (int, string, string) {
 	var blocks []blk
 	if len(he)+len(lm.live) <= 16 {
 		for _, e := range he {
@@ -372,7 +392,7 @@ func compareAttribution(g geom, nPub int, he []lmEntry, lm *logModel, focus []bl
 		}
 	}
 	n := 0
-	for _, pr := range probes(g, nPub, blocks, rnd) {
+	for _, pr := range probes(g, pubs, blocks, rnd) {
 		pub, port := pr.pub, pr.port
 		mo := ownersOf(he, pub, port)
 		lo := ownersOf(lm.live, pub, port)
